@@ -8,7 +8,7 @@ import layoutlib as L
 import vlib
 
 MANIFEST = {
-    "text": "For each program the real VM's retired states and the real analysis' layout are compared INSIDE Coq: every literal storage key of every explored path (other than the keccak hash of a small slot number) must have at least one layout entry at exactly that 256-bit index. Inputs cover small keys, keys >= 2^64, >= 2^128, 2^256-1, EIP-1967 constants, read-only / write-only / mixed use, buried in unrelated code. VM-level facts (SLOAD of a fresh key creates a generation, SSTORE appends, every retired thread's state is collected) follow from the VM model's theorems and correspondence; the six slot passes keep a literal key and wrap it as a slot (pass_keeps_literal_key, C06_exposed_literal_key: all trees, all 256-bit keys outside the hash table; literal_key_anywhere_refuted documents the positions under Add/Sha3 where a key is consumed by a mapping/array pattern); inference keeps every StorageSlot{constant} among the values (rule_keeps_slot); the layout loop emits at least one row whose index is the full 256-bit key for every constant slot, whatever unification produced (const_slot_row, layout_row_per_const_slot). These stage models are tied to the code by per-run correspondence; the end-to-end chain is additionally searched on real runs.",
+    "text": "For each program the real VM's retired states and the real analysis' layout are compared INSIDE Coq: every literal storage key of every explored path (other than the keccak hash of a small slot number) must have at least one layout entry at exactly that 256-bit index. Inputs cover small keys, keys >= 2^64, >= 2^128, 2^256-1, EIP-1967 constants, read-only / write-only / mixed use, buried in unrelated code. VM-level facts (SLOAD of a fresh key creates a generation, SSTORE appends, every retired thread's state is collected) follow from the VM model's theorems and correspondence; the six slot passes keep a literal key and wrap it as a slot (pass_keeps_literal_key, C06_exposed_literal_key: all trees, all 256-bit keys outside the hash table; literal_key_anywhere_refuted documents the positions under Add/Sha3 where a key is consumed by a mapping/array pattern); inference keeps every StorageSlot{constant} among the values (rule_keeps_slot); the layout loop emits at least one row whose index is the full 256-bit key for every constant slot, whatever unification produced (const_slot_row, layout_row_per_const_slot). These stage models are tied to the code by per-run correspondence; the end-to-end chain is additionally searched on real runs. END TO END: the stage models are composed into one executable model of the whole analysis (Pipeline.v: disassembly, VM, all_values, nine passes, registration, rules, unification under the hooked iteration orders, abi_type_for, layout), tied to the real `analyze` by a whole-program differential run in three order modes (stage of first disagreement reported), and pipeline_literal_key_row proves for EVERY program and configuration: a literal key outside the hash table in a retired state of the model's VM run has a row with that index in any returned layout.",
     "note": "Trusted: Coq kernel for the predicate; keccak table by the sha3 crate in the harness; harness; hook H2.",
     "technique": "coverage predicate evaluated inside Coq on the real VM states and the real layout; Coq stage lemmas (VM, lifting passes)",
 }
@@ -106,6 +106,8 @@ def check(ctx):
                              "literal_keys_in_model_runs": sum(v for _, v in nkeys),
                              "input_classes": dict(collections.Counter(progs.values())),
                              "analysis_classes": dict(collections.Counter(str(L.xa_class(a)) for a in ano))})
+    import p_pipeline
+    p_pipeline.suite(ctx, translate=False, codes={12}, cov_key="whole_pipeline_model", only=r"^(pipeline_literal_key_row|pipeline_nine_passes_keep|pipeline_storage_entries|pipeline_glue|pipeline_rule_order)", part=(1, 3))
     import p_tc_stages as TS
     TS.suite(ctx, translate=False, parts=("abi",), codes={"abi": {21}}, cov_key="tc_stages",
              only=r"^(rule_keeps_slot|const_slot_row|layout_row_per_const_slot)")
